@@ -521,11 +521,7 @@ def mem_take(I, c):
 @model_re(r'^core::num::(checked_add|checked_sub|checked_mul|checked_div|checked_rem|checked_pow)$')
 def prim_checked(I, c):
     # core::num::<impl u64>::checked_add prints as core::num::checked_add::<..>? type comes from dest
-    ty = c.dest_ty or ''
-    m = re.search(r'Option<([iu](?:\d+|size))>', ty)
-    if not m:
-        raise Unsupported('prim checked op type: ' + ty)
-    b = INT_BITS[m.group(1)]
+    b = _prim_bits(c)
     a, x = c.args
     op = c.method
     if op == 'checked_div' or op == 'checked_rem':
@@ -541,6 +537,15 @@ def prim_checked(I, c):
     return Some(simp(r))
 
 
+def _prim_bits(c):
+    m = re.search(r'<impl ([iu](?:\d+|size))>', c.callee)
+    if not m:
+        m = re.search(r'([iu](?:\d+|size))', c.dest_ty or '')
+    if not m:
+        raise Unsupported('primitive int op without type: ' + c.callee)
+    return INT_BITS[m.group(1)]
+
+
 def _pow_int(I, a, n):
     if not is_conc(n):
         raise Unsupported('symbolic exponent')
@@ -552,8 +557,7 @@ def _pow_int(I, a, n):
 
 @model_re(r'^core::num::(saturating_sub|saturating_add|saturating_mul)$')
 def prim_saturating(I, c):
-    m = re.search(r'([iu](?:\d+|size))', c.dest_ty or '')
-    b = INT_BITS[m.group(1)]
+    b = _prim_bits(c)
     a, x = c.args
     if c.method == 'saturating_sub':
         return smt.Max(simp(a - x), 0) if is_conc(a) and is_conc(x) else z3.If(a >= x, a - x, 0)
@@ -564,8 +568,7 @@ def prim_saturating(I, c):
 
 @model_re(r'^core::num::pow$')
 def prim_pow(I, c):
-    m = re.search(r'([iu](?:\d+|size))', c.dest_ty or '')
-    b = INT_BITS[m.group(1)]
+    b = _prim_bits(c)
     r = _pow_int(I, c.args[0], c.args[1])
     if I.fork(r >= (1 << b)):
         raise RustPanic('attempt to multiply with overflow')
@@ -1000,6 +1003,16 @@ def dec_ops(I, c):
     if I.fork(bad):
         raise RustPanic('attempt to %s with overflow' % m)
     return r
+
+
+@model_re(r'^<' + DEC + r' as (std::ops::)?(AddAssign|SubAssign|MulAssign|DivAssign)(<.*>)?>::(add_assign|sub_assign|mul_assign|div_assign)$')
+def dec_op_assign(I, c):
+    r0 = c.args[0]
+    c2 = type('C', (), {})()
+    c2.self_ty, c2.trait, c2.args = c.self_ty, c.trait, [r0.get(), c.args[1]]
+    c2.method = c.method.split('_')[0]
+    r0.set(dec_ops(I, c2))
+    return UNIT
 
 
 @model_re(r'^<' + DEC + r' as FromStr>::from_str$')
